@@ -158,6 +158,48 @@ def _norm(ctx):
     return out
 
 
+BASES = ['Integer32', 'OCTET STRING', 'INTEGER { fast ( 1 ) , off ( 2 ) }', 'BITS { fast ( 0 ) , off ( 1 ) }']
+DEFVALS = [[('NUMBER', 1)], [('HEX_STRING', "'0A'h")], [tok.LC('fast')], [('{', '{'), tok.LC('fast'), (',', ','), tok.LC('off'), ('}', '}')]]
+
+
+def _release(bi):
+    """a TC module and a module using it; `bi` selects what the SAME type name stands for in this release"""
+    tcmod = m.module('TC-MIB', [], [m.textual_convention('Level', seq(BASES[bi]))])
+    dev = m.module('DEV-MIB', [('TC-MIB', ['Level'])],
+                   [m.object_type('lvl', seq('Level'), m.oid('iso', 3), descr=m.text('d'), defval=DEFVALS[bi])])
+    return [tok.parse_tokens(tcmod)[0], tok.parse_tokens(dev)[0]]
+
+
+def _gen_all(sg, cg, trees):
+    symtab = {}
+    for t in trees:
+        mi, st = sg.genCode(t, symtab)
+        symtab[mi.name] = st
+    out = []
+    for t in trees:
+        mi, ctx = cg.genCode(t, symtab)
+        out.append((_info(mi), copy.deepcopy(ctx)))
+    return out
+
+
+def two_releases(b1: int, b2: int, backend: int) -> bool:
+    """
+    requires: 0 <= b1 < 4 and 0 <= b2 < 4 and 0 <= backend <= 1
+    """
+    # the same generator objects compile release 1 and then release 2 of the same module names (as a long-lived
+    # MibCompiler does); release 2 must come out exactly as with fresh objects
+    tok.install_jinja_capture()
+    cls = (_jsondoc.JsonCodeGen, tok._pysnmp.PySnmpCodeGen)[backend]
+    sg, cg = _symtable.SymtableCodeGen(), cls()
+    try:
+        _gen_all(sg, cg, _release(b1))
+        reused = _gen_all(sg, cg, _release(b2))
+        fresh = _gen_all(_symtable.SymtableCodeGen(), cls(), _release(b2))
+    except error.PySmiError:
+        return False
+    return reused == fresh
+
+
 class NondetSet(set):
     """a set whose iteration order is decided by the harness (models an arbitrary hash seed)"""
     rot = 0
@@ -237,6 +279,9 @@ def conditions(prop, tier):
         out.append(dict(name='C12.codegen-step.%s' % ('pysnmp' if be else 'json'), fn='codegen_step', fixed=dict(backend=be), timeout=t,
                         bounds='code generator with symbolic scratch state (_moduleRevision, identity/enterprise OIDs, OID sets, seen symbols/output, '
                                'import map, fakeidx unbounded, module name, text flag, symbol table) vs a fresh object'))
+        out.append(dict(name='C12.two-releases.%s' % ('pysnmp' if be else 'json'), fn='two_releases', fixed=dict(backend=be), timeout=t,
+                        bounds='one symbol-table builder and one code generator compile two releases of the same two module names in which the same '
+                               'TC name stands for any of 4 base types (with a matching DEFVAL): every ordered pair; compared with fresh objects'))
         out.append(dict(name='C12.repeat.%s' % ('pysnmp' if be else 'json'), fn='repeat', fixed=dict(backend=be), timeout=t,
                         bounds='the same generator objects process the same module twice, on the same tree object or on a copy'))
         out.append(dict(name='C12.hash-seed.%s' % ('pysnmp' if be else 'json'), fn='hash_seed', fixed=dict(backend=be), timeout=t,
@@ -249,5 +294,5 @@ def selftests(prop):
                                    dirty_post=False, dirty_out=True, gen_texts_before=True)),
             ('codegen_step', dict(has_mi=True, nrev=1, dirty_rev=False, dirty_ident=True, dirty_oids=True, dirty_seen=True, dirty_imports=False,
                                   fakeidx=1000, gen_texts_before=True, backend=0)),
-            ('repeat', dict(has_mi=True, nrev=1, share_tree=True, backend=0)),
+            ('repeat', dict(has_mi=True, nrev=1, share_tree=True, backend=0)), ('two_releases', dict(b1=1, b2=0, backend=0)),
             ('hash_seed', dict(rot=0, rev=False, nimp=3, backend=0))]
